@@ -56,7 +56,9 @@ def scenarios(tier, seed):
                 if grng.random() < 0.5:
                     adj[u][v] = adj[v][u] = 1
         drop = grng.choice([None, None, 0, 1, len(sts) - 1])
-        out.append({"sim": "Gillespie_simple_contagion(%s%s)" % (mname, "" if drop is None else ", return_statuses without %s" % sts[drop]),
+        if k % 4 == 3 and len(sts) >= 4:
+            drop = (1, 2)          # two statuses left out: some transitions then touch no reported status at all
+        out.append({"sim": "Gillespie_simple_contagion(%s%s)" % (mname, "" if drop is None else ", return_statuses without %s" % (sts[drop] if isinstance(drop, int) else "+".join(sts[d_] for d_ in drop))),
                     "generic": mname, "n": n, "adj": adj, "ic": [grng.choice(sts) for _ in range(n)], "drop": drop,
                     "tmin": grng.choice([0, 1.5]), "seed": k, "init_kw": {}})
     # table-driven event-driven SIR with ties, zero and infinite values and horizons that coincide with event times
@@ -98,7 +100,7 @@ def _record(i):
                   "induced": [{"a": a, "b": b, "c": c, "rate": r, "ew": sc["adj"]} for (a, b, c, r) in ind]}
             G, H, J, calls = contagion.build(cs)
             IC = {u: sc["ic"][u - 1] for u in range(1, n_ + 1)}
-            sts = [x for k_, x in enumerate(allsts) if k_ != sc["drop"]]
+            sts = [x for k_, x in enumerate(allsts) if (k_ != sc["drop"] if not isinstance(sc["drop"], (tuple, list)) else k_ not in sc["drop"])]
             moves_all = [[a, b] for (a, b, r) in sp] + [[b, c] for (a, b, c, r) in ind]
             simruns.seed_all(sc["seed"])
             arrs = [list(map(float, a)) for a in EoN.Gillespie_simple_contagion(G, H, J, IC, sts, tmin=sc["tmin"], tmax=sc["tmin"] + 3.0)]
@@ -194,6 +196,7 @@ def _record(i):
               "acc": rows(acc_t, [acc[s] for s in sts]),
               "sub_nodes": sub, "sub_rows": rows(ssub[0], [ssub[1][s] for s in sts]),
               "has_arr": 1, "arr": rows(arrs[0], arrs[1:1 + len(sts)]),
+              "cont": 0 if ("rectest" in sc or (not ("generic" in sc or "ties" in sc) and simruns.is_discrete(sim))) else 1,
               "queries": qs, "scn": i}
         return tr
     except Exception as ex:
